@@ -469,6 +469,13 @@ impl ReplCell {
     /// Wire-level oracles evaluated after every server frame.
     fn check_server_frame(&self, x: &mut ReplExec) -> Result<(), Violation> {
         if self.oracles.c11 && x.setup_done {
+            if let Some((c, idx)) = x.sim.acks.spurious_acks.first() {
+                return Err(self.v(
+                    "C11",
+                    "acknowledged-without-delivery",
+                    format!("client c{c} acknowledged mutate message #{idx} which was never delivered to it"),
+                ));
+            }
             crate::props::c11::check_tick(self, x)?;
         }
         if self.oracles.c10 && x.setup_done {
